@@ -82,7 +82,16 @@ def case(g, tier, ci):
             elif k < 0.5:
                 hi = {"twait": 3, "jump_input": 3, "nrep": 16383, "jump_target": P, "goto": P}[fld]
                 ops.append({"op": "sq.setSeq", "id": "s", "pos": p, "field": fld, "v": r.randint(0, hi)})
-    ops += [{"op": "sq.seqx", "id": "s"}, {"op": "sq.seqx", "id": "s", "flags": True},
+    if not boundary and ci % 4 == 1:
+        # a filter compensation, and the sequence's own sample rate (the one the filter runs at) other than its elements'
+        for ch in chans:
+            ops.append({"op": "sq.setAmp", "id": "s", "ch": ch, "v": enc(1e6)})
+        ops.append({"op": "sq.setFilter", "id": "s", "ch": chans[0], "kind": r.choice(["HP", "LP"]), "order": 1, "orderIsInt": True,
+                    **(r.choice([{"f_cut": enc(SR * 0.05), "tau": None}, {"f_cut": None, "tau": enc(20 / SR)}]))})
+        if ci % 8 == 1:
+            ops.append({"op": "sq.setSR", "id": "s", "v": enc(SR * 2)})
+    ops += [{"op": "sq.channels", "id": "s"},
+            {"op": "sq.seqx", "id": "s"}, {"op": "sq.seqx", "id": "s", "flags": True},
             {"op": "sq.forge", "id": "s", "delays": True, "filters": True, "time": False}]
     return ops
 
